@@ -194,6 +194,18 @@ func runCompletionContainment(p *Prog, r *Report) {
 							}
 						case *ast.AssignStmt:
 							if len(as.Lhs) != len(as.Rhs) {
+								// v, ok := search(xs, pos): a helper of the module every non-nil result
+								// of which is returned under a positional test of that result
+								if len(as.Rhs) == 1 && len(as.Lhs) >= 1 && isIdentObj(info, as.Lhs[0], o) {
+									if hc, isCall := ast.Unparen(as.Rhs[0]).(*ast.CallExpr); isCall {
+										if hf := calleeOf(info, hc); hf != nil {
+											if ht := p.FuncOf[hf]; ht != nil && ht.Body != nil && returnsUnderPositionalTest(ht) {
+												any = true
+												continue
+											}
+										}
+									}
+								}
 								return false
 							}
 							for k, l := range as.Lhs {
@@ -256,4 +268,60 @@ func itoaN(n int) string {
 		n /= 10
 	}
 	return s
+}
+
+// returnsUnderPositionalTest: every return of t whose first result is not nil is reached
+// only under a test that mentions that result's own Range() together with a cursor
+// (hcl.Pos) parameter of t.
+func returnsUnderPositionalTest(t *Func) bool {
+	info := t.Info()
+	n, good := 0, true
+	ast.Inspect(t.Body, func(k ast.Node) bool {
+		if _, isLit := k.(*ast.FuncLit); isLit {
+			return false
+		}
+		ret, ok := k.(*ast.ReturnStmt)
+		if !ok {
+			return true
+		}
+		if len(ret.Results) == 0 {
+			good = false
+			return true
+		}
+		res := ret.Results[0]
+		if isNilIdent(info, res) {
+			return true
+		}
+		n++
+		rc := t.Canon(res)
+		if rc == "" {
+			good = false
+			return true
+		}
+		test := func(a *Atom) bool {
+			if a.E == nil || !a.Pol {
+				return false
+			}
+			hit, cur := false, false
+			ast.Inspect(t.InlineLocals(a.E, 3), func(z ast.Node) bool {
+				switch y := z.(type) {
+				case *ast.CallExpr:
+					if s2, ok := ast.Unparen(y.Fun).(*ast.SelectorExpr); ok && s2.Sel.Name == "Range" && len(y.Args) == 0 && t.Canon(s2.X) == rc {
+						hit = true
+					}
+				case *ast.Ident:
+					if v, ok := info.ObjectOf(y).(*types.Var); ok && isHclPos(v.Type()) && t.isParam(v) {
+						cur = true
+					}
+				}
+				return true
+			})
+			return hit && cur
+		}
+		if !(t.GuardsAt(ret).Holds(test) || t.HoldsOnAllPaths(ret, test)) {
+			good = false
+		}
+		return true
+	})
+	return n > 0 && good
 }
